@@ -44,7 +44,8 @@ def budget(tier):
 
 
 def strategy(tier):
-    op = st.tuples(st.sampled_from(["new", "new", "new", "clear"]), st.integers(0, 11), st.integers(0, len(ARGSETS) - 1))
+    # spam: 130 constructions of one class in a row; crowd: 140 further singleton classes live at once, most of them cleared one by one
+    op = st.tuples(st.sampled_from(["new", "new", "new", "clear"] * 6 + ["spam", "crowd"]), st.integers(0, 11), st.integers(0, len(ARGSETS) - 1))
     return st.builds(lambda ops: {"ops": [list(o) for o in ops]}, st.lists(op, max_size=60))
 
 
@@ -59,6 +60,42 @@ def enumerate_cases(tier, shard=0, nshards=1):
 
     n = sum(len(alpha) ** k for k in range(1, depth + 1))
     return gen(), f"all {n} histories of 1..{depth} operations (construct P/Q(P)/R with 2 argument selections; clear P/Q/R/all)"
+
+
+def _crowd(S, where):
+    """140 further singleton classes get an instance each; 110 of them are then cleared ONE BY ONE and must construct
+    afresh; the rest still hand out their instance; finally all 140 are cleared again (targeted)."""
+    count = [0]
+
+    def mk(n):
+        class X(metaclass=S.TrueSingleton):
+            def __init__(self, *a):
+                count[0] += 1
+                self.serial = count[0]
+        X.__name__ = "X%d" % n
+        return X
+
+    crowd = [mk(n) for n in range(140)]
+    serial = {}
+    for X in crowd:
+        o = X()
+        serial[X] = o.serial
+        del o
+    try:
+        for X in crowd[:110]:
+            S.clear_true_singleton(X)
+        for n, X in enumerate(crowd):
+            c0 = count[0]
+            o = X(n)
+            ser = o.serial
+            del o
+            if n < 110:
+                require(count[0] == c0 + 1 and ser != serial[X], "clear-had-no-effect", f"{where}: crowd class #{n} was cleared (targeted clear #{n + 1} of 110 among 140 live classes) yet hands out its old instance")
+            else:
+                require(count[0] == c0 and ser == serial[X], "other-class-instance-lost", f"{where}: crowd class #{n} was not cleared yet was re-created")
+    finally:
+        for X in crowd:
+            S.clear_true_singleton(X)
 
 
 def check_case(case):
@@ -150,8 +187,17 @@ def check_case(case):
     nt_a = nt_b = False
     classes = set()
     try:
-        for step, (op, ci, ai) in enumerate(case["ops"]):
+        expanded = []
+        for op, ci, ai in case["ops"]:
+            expanded += [["new", ci, ai]] * 130 if op == "spam" else [[op, ci, ai]]
+        if len(expanded) > len(case["ops"]):
+            classes.add("130-constructions-in-a-row")
+        for step, (op, ci, ai) in enumerate(expanded):
             where = f"step {step} {op} {ci} {ai}"
+            if op == "crowd":
+                _crowd(S, where)
+                classes.add("140-classes-live-at-once")
+                continue
             if op == "new":
                 c = CL[sel(ci)]
                 a, k = ARGSETS[ai]
